@@ -33,7 +33,7 @@ def fl(ctx, name, lo=None, hi=None, lo_strict=False):
 
 
 def same(ctx, a, b, label, detail=""):
-    if ctx.sym:
+    if ctx.sym and (core.is_sym(a) or core.is_sym(b)):
         return ctx.require_ratio_eq(a, b, label, detail)
     a, b = float(a), float(b)
     ok = abs(a - b) <= 1e-9 * max(1.0, abs(a), abs(b))
@@ -221,7 +221,8 @@ def model_interval(ctx):
               pref_intervals_by_bloc={"X": {"X": PreferenceInterval(dict(sx)), "Y": PreferenceInterval({"y0": 1.0})},
                                       "Y": {"X": PreferenceInterval({"x0": 1.0, "x1": 1.0}), "Y": PreferenceInterval({"y0": 1.0})}},
               bloc_voter_prop={"X": 0.5, "Y": 0.5},
-              cohesion_parameters={"X": {"X": cx, "Y": one_minus}, "Y": {"X": 0.25, "Y": 0.75}})
+              # inner dictionaries deliberately written own-bloc-first (a legal key order that differs from the bloc order)
+              cohesion_parameters={"X": {"X": cx, "Y": one_minus}, "Y": {"Y": 0.75, "X": 0.25}})
     if P["cls"] == "name_Cumulative":
         kw["num_votes"] = 2
     if P["cls"] == "short_name_PlackettLuce":
@@ -241,6 +242,22 @@ def model_interval(ctx):
         same(ctx, pi.interval[c], mul(ex(cx), div(ex(sx[c]), tot)), "c15:model-interval", f"{P['cls']}: combined interval of bloc X at {c}")
     if not ctx.truth(eq(ex(cx), 1)):
         same(ctx, pi.interval["y0"], sub(1, ex(cx)), "c15:model-interval", f"{P['cls']}: combined interval of bloc X at y0")
+    # bloc Y (concrete parameters, dictionary written Y-first): 0.25 * (1/2, 1/2) on the X slate, 0.75 on y0
+    piy = gen.pref_interval_by_bloc["Y"]
+    for c, want in (("x0", RealFraction(1, 8)), ("x1", RealFraction(1, 8)), ("y0", RealFraction(3, 4))):
+        same(ctx, piy.interval[c] if c in piy.interval else 0, want, "c15:model-interval", f"{P['cls']}: combined interval of bloc Y at {c} (cohesion dictionary in own-bloc-first order)")
+    if P["cls"] == "name_BradleyTerry":
+        # the precomputed table of bloc Y must be the Bradley-Terry table of that combined interval
+        yy = {"x0": RealFraction(1, 8), "x1": RealFraction(1, 8), "y0": RealFraction(3, 4)}
+        perms = list(itertools.permutations(list(yy)))
+        d = {s_: bt_def(s_, yy) for s_ in perms}
+        tot = add(*d.values())
+        pdf = gen.pdfs_by_bloc["Y"]
+        if set(pdf) != set(perms):
+            ctx.fail("c15:bt-support", f"bloc Y table has {len(pdf)} rankings")
+        else:
+            for s_ in perms:
+                same(ctx, pdf[s_], div(d[s_], tot), "c15:bt-probability", f"bloc Y: P({s_})")
     return {"kind": "ok"}
 
 
